@@ -50,6 +50,13 @@ def check(run):
         run.bounded.append({"what": "native: transform / mahalanobis / score(explain) vs the exported filter run by hand; repeat call; parameters unchanged; sensors inserted in non-alphabetical order, several readings, 0-2 controls", "bound": f"{len(cases)} estimators x 4-6 rows", "failures": len(problems), "counted_as_proved": False})
         for p, inp in problems[:2]:
             run.findings.append(Finding("C16.py.native_hand_run", p.split("[")[0][:30], p, {"language": "python", "inputs": inp, "oracle_verdict": p}, True))
+    # stateful: the same estimator transformed, reconfigured through set_params, transformed again (always run)
+    run.native_runs += 1
+    seq, info = sklearn_native.transform_sequence_problems(run.seed)
+    run.bounded.append({"what": "native stateful sequence on one estimator: transform, set_params(innovation_filtering / noise), transform on data with an outlier row - each step vs the hand-run of the exported filter", "bound": "1 estimator x 4 steps x 6 rows", "failures": len(seq), "counted_as_proved": False})
+    for p in seq[:1]:
+        problems.append((p, {"sequence": True, "seed": run.seed}))
+        run.findings.append(Finding("C16.py.native_sequence", "stateful", p, {"language": "python", "inputs": {"sequence": True, "seed": run.seed}, "oracle_verdict": p}, True))
     for rep, ob, model, definitive in pending:
         if not problems and (not definitive or ob.theory == "euf"):
             run.undecided.append(ob.name)
@@ -59,6 +66,10 @@ def check(run):
 
 def replay_file(payload):
     i = payload["inputs"]
+    if i.get("sequence"):
+        p, info = sklearn_native.transform_sequence_problems(i.get("seed", 0))
+        print("replay C16 (stateful sequence):", p[:2] or "every step equals the hand-run of the exported filter")
+        return not p
     p, info = sklearn_native.transform_problems(i["seed"], i["rows"], i["n_sensors"], i["controls"], i.get("k_edit"))
     print("replay C16:", p[:3] or "transform / mahalanobis / score equal the hand-run filter's NIS")
     return not p
